@@ -43,6 +43,10 @@ type Opts struct {
 	EventRich   bool    // more events per transaction
 	Contracts   []uint64
 	Slots       []uint64
+	// DeclaredOnly: contracts are deployed with / replaced by declared classes only (a node
+	// that fetches class definitions by hash, as the feeder-gateway data source does, cannot
+	// be served a definition for a hash nothing declares)
+	DeclaredOnly bool
 }
 
 var AllVersions = []string{"0.13.2", "0.13.4", "0.14.0", "0.14.1"}
@@ -57,6 +61,30 @@ type Gen struct {
 	Opt   Opts
 	seq   uint64 // makes every transaction unique across forks
 	verIx int
+	// every class this generator ever declared, in order: a later block on another fork may
+	// declare one of them again (a reorg usually re-includes the orphaned transactions)
+	madeV0 []madeClass
+	madeV1 []madeClass
+}
+
+type madeClass struct {
+	h felt.Felt
+	c core.ClassDefinition
+}
+
+// redeclarable picks, if there is one, a class declared earlier (on whatever fork) that the
+// state this block builds on does not hold.
+func (g *Gen) redeclarable(pool []madeClass, st *State) *madeClass {
+	var cands []int
+	for i := range pool {
+		if _, ok := st.Classes[pool[i].h]; !ok {
+			cands = append(cands, i)
+		}
+	}
+	if len(cands) == 0 {
+		return nil
+	}
+	return &pool[cands[g.Rng.IntN(len(cands))]]
 }
 
 func NewGen(rng *rand.Rand, opt Opts) *Gen {
@@ -228,12 +256,26 @@ func (g *Gen) Next(parent *Blk, st *State) *Draft {
 		// declarations
 		if !g.Opt.NoClasses && r.IntN(4) == 0 {
 			if r.IntN(2) == 0 {
-				h, c := g.cairo0Class()
+				var h felt.Felt
+				var c core.ClassDefinition
+				if m := g.redeclarable(g.madeV0, st); m != nil && r.IntN(2) == 0 {
+					h, c = m.h, m.c
+				} else {
+					h, c = g.cairo0Class()
+					g.madeV0 = append(g.madeV0, madeClass{h, c})
+				}
 				classes[h] = c
 				sd.DeclaredV0Classes = append(sd.DeclaredV0Classes, &h)
 				addTx(g.declareTx(&h, nil, uint64(r.IntN(2))))
 			} else {
-				h, c := g.sierraClass()
+				var h felt.Felt
+				var c *core.SierraClass
+				if m := g.redeclarable(g.madeV1, st); m != nil && r.IntN(2) == 0 {
+					h, c = m.h, m.c.(*core.SierraClass)
+				} else {
+					h, c = g.sierraClass()
+					g.madeV1 = append(g.madeV1, madeClass{h, c})
+				}
 				classes[h] = c
 				var casm felt.Felt
 				if VersionAtLeast(ver, "0.14.1") {
@@ -257,6 +299,9 @@ func (g *Gen) Next(parent *Blk, st *State) *Draft {
 		}
 		// contracts
 		classPool := []felt.Felt{*F(0xc1), *F(0xc2), *F(0xc3)}
+		if g.Opt.DeclaredOnly {
+			classPool = nil
+		}
 		for _, h := range sortedHashes(st.Classes) {
 			if len(classPool) < 8 {
 				classPool = append(classPool, h)
@@ -269,7 +314,7 @@ func (g *Gen) Next(parent *Blk, st *State) *Draft {
 			addr := F(a)
 			c, ok := work.Contracts[*addr]
 			if !ok {
-				if r.IntN(4) != 0 {
+				if r.IntN(4) != 0 || len(classPool) == 0 {
 					continue
 				}
 				cls := classPool[r.IntN(len(classPool))]
@@ -290,7 +335,7 @@ func (g *Gen) Next(parent *Blk, st *State) *Draft {
 				sd.Nonces[*addr] = nn
 				addTx(g.invokeTx(addr, []uint64{0, 1, 3, 3}[r.IntN(4)]))
 			}
-			if !justDeployed && r.IntN(6) == 0 {
+			if !justDeployed && r.IntN(6) == 0 && len(classPool) > 0 {
 				cls := classPool[r.IntN(len(classPool))]
 				c.Class = cls
 				sd.ReplacedClasses[*addr] = &cls
